@@ -15,6 +15,10 @@ CLAIMED = {
    tech="TLA+ specs ConnLimiter.tla (explicit condition variable) and Pipeline.tla model-checked by TLC incl. liveness; action sequences replayed on real limitListeners (inner listener as gate, parked goroutines from runtime.Stack) and on real TCP/DoT servers; traces validated by TLC with silent TryInc steps",
    text="TLC explores all interleavings of accept / park / wake / inner accept / close / double close / listener shutdown for 2-3 listeners and every stop>=resume up to 4 and checks bound, exact counter, hysteresis, no lost wake-up and release of waiters; sanity configs show that the two defects of the pinned tree (Signal, slot taken before the closed check) are expressible. Real limiters are then driven through TLC-generated and random schedules and every quiescent state is matched by TLC against the spec; pipeline bursts on real servers are validated against Pipeline.tla.",
    note=TRUST + "runtime.Stack goroutine states for 'parked in Cond.Wait'; the harness acts at quiescent points, finer interleavings are covered by the model and by free-running stress summaries.", ref="6 C18"),
+ "C19": dict(
+   tech="TLA+ decision spec LinkedIP.tla (contract from doc/http.md + RFC 3986 dot-segment removal, and the implementation-shaped shouldProxy rule) enumerated completely by TLC; raw HTTP requests sent to the real handler, every recorded line validated by TLC (TraceLinkedIP.tla)",
+   text="TLC enumerates all 6 methods x all paths of up to 5 segments over {linkip, ddns, status, id, empty, ., ..} and proves that the implementation-shaped rule stays inside the contract and that the contract implies the four-shapes / stays-under-prefix clauses; a sanity config shows the pinned tree's rule leaves the contract. Every abstract vector is then concretised (encoded dots, encoded slashes, case variants, forged header subsets, distinct loopback peers), sent raw over TCP to the real handler and TLC checks per line what the recording backend received.",
+   note=TRUST + "net/url request-target parsing as the server-side view of the path; an httptest backend.", ref="6 C19"),
 }
 
 def main():
